@@ -173,17 +173,25 @@ class _Quiet:
 
 
 class _Skip:
-    """The check without the rules that were decided by evaluation: their pinned-form reading is not recorded."""
+    """The check as the pinned-form pass sees it after fit_to_pdb was evaluated: a *form* rule that evaluation decided is not recorded
+    (its pinned reading is only a fallback); an *evidence* rule (chk.robust: a fact read from every store / path whatever the shape)
+    still records what it finds - representatives cannot see everything, e.g. a store of a constant that happens to equal their
+    value - but its 'idiom not found' is dropped, since the behaviour was decided on the current code."""
 
     def __init__(self, chk, decided):
-        self._chk, self._decided = chk, set(decided) | {r + "-form" for r in decided}
+        self._chk = chk
+        self._decided = set(decided) | {r + "-form" for r in decided}
+        self._evidence = set(chk.robust)
         self.repo, self.robust = chk.repo, chk.robust
 
     def __getattr__(self, name):
         return getattr(self._chk, name)
 
+    def _form(self, rule) -> bool:
+        return rule in self._decided and rule not in self._evidence
+
     def ok(self, rule, *a, **k):
-        if rule not in self._decided:
+        if not self._form(rule):
             self._chk.ok(rule, *a, **k)
 
     def error(self, rule, *a, **k):
@@ -191,11 +199,11 @@ class _Skip:
             self._chk.error(rule, *a, **k)
 
     def violation(self, rule, *a, **k):
-        if rule not in self._decided:
+        if not self._form(rule):
             self._chk.violation(rule, *a, **k)
 
     def expect(self, cond, rule, *a, **k):
-        if rule not in self._decided:
+        if not self._form(rule):
             return self._chk.expect(cond, rule, *a, **k)
         return bool(cond)
 
